@@ -36,6 +36,7 @@ const (
 	c17SigF9  = "c17:rewrite-decodes-reserved-escape"
 	c17SigF10 = "c17:rewrite-drops-malformed-query-pair"
 	c17SigF11 = "c17:trailing-slash-redirect-appends-slash-to-query"
+	c17SigRedelivered = "c17:non-idempotent-request-redelivered"
 )
 
 // ---------------------------------------------------------------------------------------------------------
@@ -84,8 +85,20 @@ func c17Responder(name string, sent *sync.Map) func(w http.ResponseWriter, r *ht
 			c17ServeTunnel(name, id, w, sent)
 			return
 		}
-		if r.Method == "HEAD" && rc >= 18 && rc <= 20 {
+		if r.Method == "HEAD" && rc >= 18 && rc <= c17RespPartialHead {
 			rc = 0
+		}
+		if rc == c17RespPartialHead { // die in the middle of the header block: a status line and half a field, no final CRLF
+			sent.Store(id, &c17Sent{Aborted: true, BeforeHeaders: true, Header: http.Header{}})
+			if hj, ok := w.(http.Hijacker); ok {
+				if conn, brw, err := hj.Hijack(); err == nil {
+					_, _ = brw.WriteString("HTTP/1.1 200 OK\r\nContent-Type: text/pl")
+					_ = brw.Flush()
+					_ = conn.Close()
+					return
+				}
+			}
+			panic(http.ErrAbortHandler)
 		}
 		if rc == 19 { // die before a single byte of the answer
 			sent.Store(id, &c17Sent{Aborted: true, BeforeHeaders: true, Header: http.Header{}})
@@ -393,7 +406,7 @@ func c17ExpectRequestHeaders(req *vfReq, injected []string, ws bool) map[string]
 	return out
 }
 
-var c17RoutingSigs = map[string]bool{"c17:not-delivered": true, "c17:delivered-more-than-once": true, "c17:wrong-upstream": true, "c17:delivered-unexpectedly": true,
+var c17RoutingSigs = map[string]bool{"c17:not-delivered": true, "c17:delivered-more-than-once": true, c17SigRedelivered: true, "c17:wrong-upstream": true, "c17:delivered-unexpectedly": true,
 	"c17:unrouted-not-404": true, "c17:trailing-slash-redirect": true, "c17:unclean-path-not-redirected": true, "c17:static-response": true, "c17:file-response": true, "c17:redirect-location-differs": true}
 
 func c17ListTokens(v string) string {
@@ -495,6 +508,16 @@ func (j *c17Judge) judgeRequestCommon(s *c17Set, u *c17Up, c *c17Case, req *vfRe
 		if v, ok := got["Accept-Encoding"]; ok && len(v) == 1 && v[0] == "gzip" {
 			delete(got, "Accept-Encoding")
 			j.run.Count("accepted_transport_added_accept_encoding_gzip", 1)
+		}
+	}
+	if off := c17UpgradeOffer(c); off != "" && !c.WS {
+		// a proxy may pass an upgrade offer on to the next hop or drop it (RFC 9110 §7.8: Upgrade is hop-by-hop); passed on,
+		// it must be the client's offer. Everything else about such a request is judged like any other request.
+		j.run.Count("non_websocket_upgrade_offers", 1)
+		if cv, uv := got["Connection"], got["Upgrade"]; len(cv) == 1 && strings.EqualFold(cv[0], "upgrade") && len(uv) == 1 && uv[0] == off {
+			delete(got, "Connection")
+			delete(got, "Upgrade")
+			j.run.Count("accepted_upgrade_offer_passed_on", 1)
 		}
 	}
 	for k, want := range exp {
@@ -756,13 +779,19 @@ func (j *c17Judge) judgeResponse(c *c17Case, resp *vfResp, x *c17WireX) []c17Fin
 }
 
 // c17FileLookup: what the served directory holds at rel ("/name"): a file (with content), a directory, or nothing.
-func c17FileLookup(rel string) (string, string) {
-	name := strings.TrimPrefix(rel, "/")
+func c17FileLookup(root, rel string) (string, string) {
+	name := root + strings.TrimPrefix(rel, "/")
 	if content, ok := c17Files[name]; ok {
 		return "file", content
 	}
-	if name == "" || name == "sub" || name == "sub/" {
+	dir := strings.TrimSuffix(name, "/") + "/"
+	if dir == "/" {
 		return "dir", ""
+	}
+	for n := range c17Files {
+		if strings.HasPrefix(n, dir) {
+			return "dir", ""
+		}
 	}
 	return "none", ""
 }
@@ -889,8 +918,19 @@ func (j *c17Judge) judgeUnder(s *c17Set, d c17Decision, c *c17Case, req *vfReq, 
 		case nHits > 1:
 			retried := false
 			if v, ok := j.sent.Load(c.ID); ok && v.(*c17Sent).BeforeHeaders && len(hits) == 1 {
-				retried = true // net/http's transport may retry once on a connection that died before any answer byte
-				j.run.Count("accepted_transport_retry_after_upstream_died_before_answering", 1)
+				// The upstream died before the first answer byte. Repeating the request is the hop's own business only where
+				// HTTP allows an automatic retry (RFC 9110 §9.2.2: idempotent methods; "a proxy MUST NOT automatically retry
+				// non-idempotent requests"): a POST or PATCH the upstream has already received must not reach it again.
+				switch c.Method {
+				case "POST", "PATCH":
+										add(c17SigRedelivered, "reference: %s; the upstream received this %s %d times (%s): it dropped the connection without answering after reading the request, and the request was sent to it again", d, c.Method, nHits, hitNames())
+					return f
+				case "GET", "HEAD", "OPTIONS", "TRACE":
+					j.run.Count("accepted_transport_retry_after_upstream_died_before_answering", 1)
+				default: // PUT, DELETE: idempotent; every copy must be the complete request (judged below)
+					j.run.Count("observed_idempotent_unsafe_request_retried_after_upstream_died", 1)
+				}
+				retried = true // (a transport repeats for as long as it draws connections that turn out to be dead)
 			}
 			if !retried {
 				add("c17:delivered-more-than-once", "reference: %s; upstream hits %s", d, hitNames())
@@ -904,11 +944,16 @@ func (j *c17Judge) judgeUnder(s *c17Set, d c17Decision, c *c17Case, req *vfReq, 
 			}
 			return f
 		}
-		f = append(f, j.judgeRequestCommon(s, d.Up, c, req, body, h[0])...)
-		if d.Up.Rewrite == "" {
-			f = append(f, j.judgePlainTarget(c, h[0])...)
-		} else {
-			f = append(f, j.judgeRewriteTarget(d.Up, c, h[0].RequestURI, c.WS)...)
+		for _, one := range h { // every copy the upstream received (more than one only after an accepted retry) must be the request
+			f = append(f, j.judgeRequestCommon(s, d.Up, c, req, body, one)...)
+			if d.Up.Rewrite == "" {
+				f = append(f, j.judgePlainTarget(c, one)...)
+			} else {
+				f = append(f, j.judgeRewriteTarget(d.Up, c, one.RequestURI, c.WS)...)
+			}
+		}
+		if v, ok := j.sent.Load(c.ID); ok && v.(*c17Sent).BeforeHeaders && c.Method != "GET" && c.Method != "HEAD" && c.Method != "OPTIONS" {
+			j.run.Count("unsafe_requests_whose_upstream_died_before_answering", 1)
 		}
 		f = append(f, j.judgeResponse(c, resp, interim)...)
 		return f
@@ -943,7 +988,13 @@ func (j *c17Judge) judgeUnder(s *c17Set, d c17Decision, c *c17Case, req *vfReq, 
 				return f
 			}
 			var ff []c17Finding
-			kind, content := c17FileLookup(rel)
+			kind, content := c17FileLookup(d.Up.FileRoot, rel)
+			if kind == "file" {
+				j.run.Count("files_on_disk_requested", 1)
+				if strings.Contains("/"+d.Up.FileRoot+strings.TrimPrefix(rel, "/"), "/.") || strings.Contains(d.Up.Path, "/.") {
+					j.run.Count("files_below_dot_names_requested", 1)
+				}
+			}
 			switch {
 			case kind == "file" && resp.Code != 200:
 				ff = append(ff, c17Finding{"c17:file-response", fmt.Sprintf("file upstream %s: %q is the existing file %q, client got status %d", d.Up.ID, c.Path, rel, resp.Code)})
@@ -957,7 +1008,7 @@ func (j *c17Judge) judgeUnder(s *c17Set, d c17Decision, c *c17Case, req *vfReq, 
 			if len(ff) > 0 && d.Up.Rewrite != "" && strings.Contains(strings.ToUpper(c.Path), "%3F") {
 				// known deviation F9 seen through a file upstream: the escaped '?' is decoded and cuts the rewritten path
 				e := c17ExpectRewrite(d.Up, c.Path)
-				lk, lc := c17FileLookup(e.LitPath)
+				lk, lc := c17FileLookup(d.Up.FileRoot, e.LitPath)
 				if (lk == "file" && resp.Code == 200 && (c.Method == "HEAD" || string(resp.Body) == lc)) || (lk == "none" && resp.Code == 404) || (lk == "dir" && (resp.Code == 200 || resp.Code == 301)) || (e.LitBroken && (resp.Code == 500 || resp.Code == 200 || resp.Code == 301)) {
 					ff = []c17Finding{{c17SigF9, fmt.Sprintf("rule %s -> %s (file upstream): %q names %q, but the escaped '?' was decoded and cut the path to %q: status %d", d.Up.Path, d.Up.Rewrite, c.Path, rel, e.LitPath, resp.Code)}}
 				}
@@ -1144,14 +1195,17 @@ func (j *c17Judge) witness(s *c17Set, c *c17Case, req *vfReq, d *c17Decision, re
 func TestVerif_C17(t *testing.T) {
 	run := vfNewRun(t, "C17", "exploration")
 	run.SetRule("wire requests with a valid session over 16 upstream sets (6 of them the same overlapping rewrite rules in different configured orders; legacy: nested / sibling+exact / static+file / scrambled / wide(14); alpha: rewrite rules, proxyRawPath, raw+rewrite, file+static+rewrite with injected headers); " +
-		"per set: exhaustive {a,b}-paths to depth 4 ± trailing slash ± one %2F separator, every base × 26 query shapes, then seeded random (base + 0–3 segments over the alphabet a b %2F %2f %2E %20 + ; : @ %C3%A9 ~ ! $ & ' ( ) * , = and escaped reserved characters) × query × 7 methods × bodies (none/form/text/binary, 0 B–1 MiB, Content-Length or chunked) × 13 header classes (incl. Expect: 100-continue uploads) × 18 scripted upstream responses (4 of them preceded by 103 Early Hints, 3 in which the upstream dies mid-answer), plus WebSocket upgrade requests (101 + tunnel dialogue, or a plain refusal) against upstreams whose URL carries a path. " +
+		"per set: exhaustive {a,b}-paths to depth 4 ± trailing slash ± one %2F separator, every base × 26 query shapes, then seeded random (base + 0–3 segments over the alphabet a b %2F %2f %2E %20 + ; : @ %C3%A9 ~ ! $ & ' ( ) * , = and escaped reserved characters) × query × 7 methods × bodies (none/form/text/binary, 0 B–1 MiB, Content-Length or chunked) × 13 header classes (incl. Expect: 100-continue uploads) × 18 scripted upstream responses (4 of them preceded by 103 Early Hints, 3 in which the upstream dies mid-answer), plus WebSocket upgrade requests (101 + tunnel dialogue, or a plain refusal) against upstreams whose URL carries a path; " +
+		"per base: POST/PUT/PATCH/DELETE (no body, form, chunked, 40 KiB) whose upstream dies before answering or half-way through its header block (exactly-once delivery, complete body, 502), non-WebSocket upgrade offers (h2c, TLS/1.0, unknown token, Upgrade not listed in Connection), and under file upstreams (incl. two whose configured path / served directory is a dot directory, one behind a rewrite rule) every file of the tree with lenient and strict escaping. " +
 		"cell = (set, reference outcome kind, path class, query class, method, body class, header class, response class); non-trivial = anything but a plain GET of a plain path")
 	run.Assume("Go regexp engine for the rule semantics (regexp.ReplaceAllString is what the rule documentation promises)",
 		"fake upstreams and the raw client parse HTTP with net/http: header-name case and the order of different header names are not observable",
 		"accepted, listed differences: hop-by-hop headers removed; X-Forwarded-For appended; repeated request header lines comma-joined; Host per passHostHeader; Accept-Encoding: gzip may be added when the client sent none; Content-Type may be sniffed when the upstream sent none; Gap-Auth added to responses; Date/Content-Length/Transfer-Encoding/Connection framing",
 		"rewrite upstreams: re-ordering of parameters, re-escaping of unreserved octets and of the mark characters !*'() are accepted",
 		"proxyRawPath: prefixes and exact paths are matched on the escaped path only, rewrite patterns on the decoded path they rewrite; only when no upstream matches and the slash-appended courtesy test differs between the two forms are both a 301 to path+'/' and a 404 accepted",
-		"upstream aborts: a response the upstream did not finish must reach the client as an aborted/short transfer (or 502 when nothing had been sent), never as a cleanly terminated response; a transport retry after a death before the first answer byte is accepted",
+		"upstream aborts: a response the upstream did not finish must reach the client as an aborted/short transfer (or 502 when nothing or only part of the header block had been sent), never as a cleanly terminated response; one repetition after a death before the first answer byte is accepted for idempotent methods only (RFC 9110 §9.2.2) and every copy must be the complete request — a POST or PATCH must be in the upstream's log exactly once",
+		"protocol-upgrade offers other than WebSocket (h2c, TLS/1.0, unknown tokens; an Upgrade field not listed in Connection) are ordinary requests: the offer itself may be passed on or dropped, everything else is judged as usual",
+		"file upstreams: every file the harness created below the served directory (dot-directories, dot-files, names with reserved and special characters) is requested with lenient and strict escaping and must come back 200 with its bytes",
 		"WebSocket upgrades: Connection/Upgrade are forwarded; recorded but not judged (observed on the unchanged tree, documentation silent): passHostHeader=false is not applied to upgrades, and a rewrite rule's own query pairs are not added for upgrades",
 		"informational responses: 100 Continue is per-hop and not compared; every other 1xx (103 Early Hints) must be forwarded with its Link fields before the final response",
 		"paths whose *encoded* form is not canonical are outside the property's quantifier: only 'answered by a 301 and not delivered' is checked for them")
@@ -1233,7 +1287,7 @@ func TestVerif_C17(t *testing.T) {
 		run.Count("sets", 1)
 		s.Proxy.Server().Close() // waits for the connection goroutines of this instance
 	}
-	for _, must := range []string{"judged_requests_that_refreshed_the_session", "slow_streamed_responses_under_short_timeout", "slow_uploads_under_short_timeout", "websocket_tunnels", "upstream_aborts_mid_body", "upstream_aborts_before_headers", "responses_with_informational_prelude", "decision_http", "decision_http+rewrite", "decision_static", "decision_file", "decision_file+rewrite", "decision_redirect-clean", "decision_redirect-slash", "decision_notfound"} {
+	for _, must := range []string{"judged_requests_that_refreshed_the_session", "slow_streamed_responses_under_short_timeout", "slow_uploads_under_short_timeout", "websocket_tunnels", "upstream_aborts_mid_body", "upstream_aborts_before_headers", "unsafe_requests_whose_upstream_died_before_answering", "non_websocket_upgrade_offers", "files_below_dot_names_requested", "responses_with_informational_prelude", "decision_http", "decision_http+rewrite", "decision_static", "decision_file", "decision_file+rewrite", "decision_redirect-clean", "decision_redirect-slash", "decision_notfound"} {
 		if run.Counter(must) == 0 {
 			run.Inconclusive("no case exercised " + must)
 			fmt.Printf("INCONCLUSIVE property=C17 reason=no case exercised %s\n", must)
